@@ -25,6 +25,8 @@ type c04Params struct {
 	// Huge: ticks of more than 2^31 requests with max-iterations = c; the run ends by its limit, the harness
 	// does not cancel it (a stop would have to report the 2^32 leftovers one by one)
 	Huge bool `json:"huge,omitempty"`
+	// BigPool: tens of thousands of workers; the rendezvous is given time as long as the number in flight still grows
+	BigPool bool `json:"big_pool,omitempty"`
 }
 
 func init() {
@@ -121,6 +123,23 @@ func init() {
 				cse.Solo = true
 				cse.Procs = 16
 				cse.TimeoutMS = 90000
+				cs = append(cs, cse)
+			}
+			// pools beyond 2^16 workers (the flag has no upper bound): all of them usable at once
+			for i := 0; i < map[string]int{"quick": 2, "thorough": 6}[tier]; i++ {
+				c := []int{65537, 70001, 131073, 65600, 90000, 66000}[i]
+				mode := []string{"users", "constant", "users", "custom", "staged", "users"}[i]
+				p := c04Params{Rendezvous: true, Body: "gated", PerTick: c, BigPool: true}
+				p.Spec = engine.RateSpec(mode, p.PerTick, 1000, c)
+				if mode == "users" {
+					p.Spec = engine.Spec{Mode: "users", Concurrency: c, MaxDurationMS: 120000}
+				}
+				p.Spec.MaxDurationMS, p.Spec.IgnoreDropped = 120000, true
+				p.Desc = fmt.Sprintf("mode=%s c=%d perTick=%d body=gated rendezvous=true (pool beyond 2^16)", mode, c, p.PerTick)
+				cse := core.MkCase("C04", "run", 7900+i, seed, p)
+				cse.Solo = true
+				cse.Procs = 16
+				cse.TimeoutMS = 240000
 				cs = append(cs, cse)
 			}
 			// ticks far beyond 32 bits: every worker still gets its request
@@ -250,7 +269,39 @@ func c04Run(c *core.Case, o *core.Outcome) {
 	done := make(chan *engine.Run, 1)
 	go func() { done <- engine.Execute(ctx, p.Spec, l, scenario, hooks, nil) }()
 	var r *engine.Run
-	if p.Rendezvous {
+	if p.Rendezvous && p.BigPool {
+		// bounded progress, judged on the count in flight: it must keep growing until it reaches c. 20 s without any
+		// growth while the trigger keeps offering >= c (users: always) is the violation; 150 s in all is inconclusive.
+		last, lastChange := int64(-1), time.Now()
+	wait:
+		for {
+			select {
+			case <-opened:
+				cancel()
+				r = <-done
+				break wait
+			case r = <-done:
+				break wait
+			case <-time.After(500 * time.Millisecond):
+			}
+			if n := k.Inflight.Load(); n != last {
+				last, lastChange = n, time.Now()
+			}
+			if time.Since(lastChange) > 20*time.Second && (p.Spec.Mode == "users" || ticksOffering.Load() >= 10) {
+				cancel()
+				r = <-done
+				o.Violate("lower:"+p.Desc, "for 20 s (%d ticks each offering >= c=%d requests) exactly %d iterations stayed in flight at once (high-water %d, %d distinct handles), after %v in all: not all workers usable (%s)",
+					ticksOffering.Load(), cc, last, k.HighWater.Load(), k.Handles(), time.Since(start), p.Desc)
+				return
+			}
+			if time.Since(start) > 150*time.Second {
+				cancel()
+				r = <-done
+				o.Inconc("rendezvous of %d not complete after 150 s (%d in flight, still changing) (%s)", cc, last, p.Desc)
+				return
+			}
+		}
+	} else if p.Rendezvous {
 		select {
 		case <-opened:
 			if p.Huge {
